@@ -322,6 +322,13 @@ func evalOracles(sc *Scenario, all []obs, rec *Rec) {
 		// the acceptor mirrors the comp ids of any parsed Logon received while waiting for one
 		if acceptor && op.Kind == "IN" && strings.HasPrefix(op.Label, "logon-") && op.Label != "logon-damaged" && before.State == 0 {
 			expSender, expTarget = "Server", "Client"
+			fs := tokenize(op.Data)
+			if v, ok := fget(fs, "56"); ok {
+				expSender = v
+			}
+			if v, ok := fget(fs, "49"); ok {
+				expTarget = v
+			}
 		}
 		checkWires(i, &o, isResend)
 		checkC19(i, &o)
